@@ -692,6 +692,9 @@ def model_call(crate, fn, args, site, term=None):
     if path in ("std::cmp::PartialEq::eq", "std::cmp::PartialEq::ne") and len(args) == 2:
         v = ("bin", "Eq", args[0], args[1])
         return v if path.endswith("::eq") else ("un", "Not", v)
+    if path == "core::str::<impl str>::parse" and fn.get("gargs"):
+        # the target type decides which literals parse: keep it in the callee's name
+        return ("call", "core::str::<impl str>::parse::<%s>" % fn["gargs"][-1], args, site)
     return ("call", path, args, site)
 
 
@@ -845,6 +848,10 @@ def show(t, names=None):
         nm = "::".join(nm[-2:]) if t[1] == "adt" else t[1]
         return "%s(%s)" % (nm, ", ".join(show(o, names) for o in t[3]))
     if k == "call":
+        if t[1] in SEARCH_FNS and len(t[2]) == 2:
+            kinds = search_kinds(t[2][0])
+            if kinds is not None:
+                return "search{%s}(%s)" % ("|".join(sorted(kinds)), show(t[2][1], names))
         return "%s(%s)" % (short_fn(t[1]), ", ".join(show(a, names) for a in t[2]))
     if k == "bin":
         return "%s(%s, %s)" % (t[1], show(t[2], names), show(t[3], names))
@@ -859,6 +866,10 @@ def show(t, names=None):
     if k in ("phi", "rec") and ("phikey", t[1]) in names:
         return names[("phikey", t[1])]
     if k == "phi":
+        c = compact_phi(t, names)
+        if c is not None:
+            return c
+    if k == "phi":
         return "φ%s{%s}" % (("_%d" % t[1][1]) if isinstance(t[1], tuple) and len(t[1]) == 2 and isinstance(t[1][1], int) else "", " | ".join(show(v, names) for v in t[2]))
     if k == "rec":
         return "↺_%s" % (t[1][1],)
@@ -871,7 +882,70 @@ def show(t, names=None):
     return repr(t)
 
 
+SEARCH_FNS = ("analyzer::ast::extract_target_from_node", "analyzer::ast::extract_targets_from_node")
+
+
+def search_kinds(ts):
+    """kinds requested by the first argument of extract_target(s)_from_node, None if not a literal set"""
+    if ts[0] == "agg" and ts[1] == "adt" and not ts[3]:
+        return [ts[2].rsplit("::", 1)[-1]]
+    st = [ts]
+    while st:
+        x = st.pop()
+        if isinstance(x, tuple) and x and x[0] == "agg" and x[1] == "array":
+            if all(o[0] == "agg" and o[1] == "adt" and not o[3] for o in x[3]):
+                return [o[2].rsplit("::", 1)[-1] for o in x[3]]
+            return None
+        if isinstance(x, tuple):
+            st.extend(y for y in x if isinstance(y, tuple))
+    return None
+
+
+def _chain(t):
+    steps = []
+    while t[0] in ("proj", "elem"):
+        steps.append(("elem",) if t[0] == "elem" else ("proj", t[2]))
+        t = t[1]
+    steps.reverse()
+    return t, steps
+
+
+def compact_phi(t, names=None):
+    """or-pattern bindings: the same field path below alternative variants of one node renders as base↓{A|B}.rest"""
+    ms = t[2]
+    if len(ms) < 2:
+        return None
+    chains = [_chain(m) for m in ms]
+    root = chains[0][0]
+    n = len(chains[0][1])
+    if any(c[0] != root or len(c[1]) != n for c in chains):
+        return None
+    diff = [i for i in range(n) if any(c[1][i] != chains[0][1][i] for c in chains)]
+    if len(diff) != 1:
+        return None
+    i = diff[0]
+    if not all(c[1][i][0] == "proj" and c[1][i][1][0] == "dc" for c in chains):
+        return None
+    variants = sorted(set(c[1][i][1][1] for c in chains))
+    if len(variants) != len(ms):
+        return None
+    # rebuild: prefix term, then the alternative step, then the common suffix rendered through a placeholder
+    prefix = root
+    for st in chains[0][1][:i]:
+        prefix = ("elem", prefix) if st[0] == "elem" else ("proj", prefix, st[1])
+    head = "%s↓{%s}" % (show(prefix, names), "|".join(variants))
+    ph = ("param", -77)
+    suffix = ph
+    for st in chains[0][1][i + 1:]:
+        suffix = ("elem", suffix) if st[0] == "elem" else ("proj", suffix, st[1])
+    return show(suffix, {ph: head})
+
+
 def short_fn(p):
+    m = re.search(r"::<([A-Za-z0-9_]+)>$", p)
+    if m:
+        return short_fn(p[: m.start()]) + "::<%s>" % m.group(1)
+    p = re.sub(r"<impl ([A-Za-z0-9_:\[\]]+)>", lambda m: m.group(1).replace("[T]", "slice"), p)
     p = re.sub(r"<[^<>]*>", "", p)
     p = re.sub(r"<[^<>]*>", "", p)
     parts = [x for x in p.split("::") if x]
